@@ -132,6 +132,17 @@ impl Word {
         self.init = NO_BITS;
     }
 }
+#[cfg(endorpersand_lc3_ensemble_verif)]
+impl Word {
+    /// Verification hook: builds a word from raw data and an initialization mask.
+    pub fn verif_from_parts(data: u16, init: u16) -> Self {
+        Self { data, init }
+    }
+    /// Verification hook: reads the raw initialization mask of this word.
+    pub fn verif_init_mask(&self) -> u16 {
+        self.init
+    }
+}
 impl From<u16> for Word {
     /// Creates a fully initialized word.
     fn from(value: u16) -> Self {
